@@ -229,6 +229,53 @@ def source_mutants(pid):
                 problems=[x for x in res if x['status'].startswith(('MISSED', 'FALSE-ALARM'))], results=res)
 
 
+# which properties speak about code under which directory (used to select the refactorings relevant to a property)
+REL_DIRS = {
+    'contracts/axelar-gateway/': ['C01', 'C02', 'C03', 'C04', 'C06', 'C07', 'C08', 'C09', 'C13', 'C15', 'C16'],
+    'contracts/axelar-gas-service/': ['C05', 'C06', 'C07', 'C14', 'C15', 'C18'],
+    'contracts/axelar-operators/': ['C06', 'C07', 'C15', 'C17'],
+    'contracts/interchain-token/': ['C05', 'C06', 'C07', 'C11', 'C12', 'C15'],
+    'contracts/interchain-token-service/': ['C04', 'C05', 'C06', 'C07', 'C10', 'C11', 'C15', 'C16', 'C18'],
+    'contracts/upgrader/': ['C15'],
+    'contracts/example/': ['C07', 'C16'],
+    'packages/': ['C06', 'C15', 'C05', 'C12', 'C14'],
+}
+
+
+def refactor_corpus(pid):
+    """the property's check on every independently written behaviour-preserving refactoring (selftest/refactors/*.diff) that touches
+    code the property speaks about: it must stay silent on each"""
+    import glob
+    repo = os.environ.get('VERIF_REPO', '/repo')
+    res = []
+    sc = tempfile.mkdtemp(prefix='axl-selfval-rf-', dir='/var/tmp')
+    try:
+        subprocess.check_call(['rsync', '-a', '--exclude', '/target', '--exclude', '/.git', '--exclude', 'test_snapshots', repo.rstrip('/') + '/', sc + '/repo/'])
+        os.makedirs(sc + '/ev')
+        for patch in sorted(glob.glob(os.path.join(VERIF, 'selftest', 'refactors', '*.diff'))):
+            name = os.path.basename(patch)[:-5]
+            touched = [l.split()[1] for l in open(patch) if l.startswith('+++ ')]
+            touched = [t.split('/', 1)[1] if '/' in t else t for t in touched]
+            if not any(t.startswith(d) and pid in ps for t in touched for d, ps in REL_DIRS.items()):
+                continue
+            pr = subprocess.run(['patch', '-p1', '-s', '-i', patch], cwd=sc + '/repo', stdin=subprocess.DEVNULL, stdout=subprocess.PIPE, stderr=subprocess.STDOUT)
+            try:
+                if pr.returncode:
+                    res.append(dict(id=name, status='SKIP(does not apply to this tree)'))
+                    continue
+                env = dict(os.environ, VERIF_REPO=os.path.join(sc, 'repo'), VERIF_EVIDENCE_DIR=os.path.join(sc, 'ev'), VERIF_TIER='quick')
+                r = subprocess.run([os.path.join(VERIF, 'check'), pid, '--tier', 'quick'], cwd=VERIF, stdout=subprocess.PIPE, stderr=subprocess.STDOUT, text=True, env=env)
+                rules = sorted(set(l.split('rule=')[1].split()[0] for l in r.stdout.splitlines() if l.strip().startswith('rule=')))
+                st = 'SILENT-AS-REQUIRED' if r.returncode == 0 else ('INFRA' if r.returncode == 2 else 'FALSE-ALARM(%s)' % ','.join(rules))
+                res.append(dict(id=name, status=st))
+            finally:
+                subprocess.run(['rsync', '-a', '--delete', '--exclude', '/target', '--exclude', '/.git', '--exclude', 'test_snapshots', repo.rstrip('/') + '/', sc + '/repo/'])
+    finally:
+        shutil.rmtree(sc, ignore_errors=True)
+    return dict(total=len(res), silent=sum(1 for x in res if x['status'] == 'SILENT-AS-REQUIRED'),
+                problems=[x for x in res if x['status'].startswith(('FALSE-ALARM', 'INFRA'))], results=res)
+
+
 def run(P, rep, mod):
     if os.environ.get('VERIF_EVIDENCE_DIR'):
         return      # nested invocation from a self-validation run
@@ -245,3 +292,9 @@ def run(P, rep, mod):
         print('SELFTEST source mutants: %d applied, %d caught, %d behaviour-preserving edits silent' % (sm['total'], sm['caught'], sm['silent_equiv']))
         for x in sm['problems']:
             print('SELFTEST-MISS rule=%s mutant=%s %s' % (rep.pid, x['id'], x['status']))
+    rc = refactor_corpus(rep.pid)
+    rep.selftest.append(dict(kind='independent behaviour-preserving refactorings (must stay silent)', **rc))
+    if rc.get('total'):
+        print('SELFTEST refactorings: %d applied, %d silent' % (rc['total'], rc['silent']))
+        for x in rc['problems']:
+            print('SELFTEST-MISS rule=%s refactoring=%s %s' % (rep.pid, x['id'], x['status']))
